@@ -28,7 +28,8 @@ struct C05 : Check {
 			"signals are delivered at system-call boundaries, not between arbitrary instructions",
 			"a register that executes itself through the visual-mode @ (the endless vi macro) is not generated: it loops until interrupted by design",
 			"every catalogue child terminates; a child that never exits would hang any editor",
-			"CPU time is the hang oracle (20 s of CPU without finishing the run), so inputs whose honest cost is super-linear are kept moderate: linelimit <= 1000 (with lim=100000 every keystroke re-runs the bidi regex set over the whole 1000+ character line), no nested-star patterns, search counts <= 300"};
+			"CPU time is the hang oracle (20 s of CPU without finishing the run), so inputs whose honest cost is super-linear are kept moderate: linelimit <= 1000 (with lim=100000 every keystroke re-runs the bidi regex set over the whole 1000+ character line), no nested-star patterns, search counts <= 30 (a backward search for a pattern that matches the empty string walks every position of a long line, per repetition), counts on . and @ <= 12 (typing n characters into one line costs O(n^2): the line is rendered again for every key), counts in the thousands only on puts of whole lines and once per plan, runs whose buffer passes 150 000 lines end unjudged",
+			"syscall budgets (bounded liveness): 400 000 calls per step and 3 000 000 per run, plus 40 calls per buffer line and 4 per buffer byte (printing or writing n lines costs O(n) calls, a one-byte pipe costs a poll per byte); transfers that the simulator itself cut short (one byte per read/write) and bytes moved through pipes do not count"};
 	}
 
 	static std::string rtext(Rng &r, int maxlen)
@@ -53,18 +54,26 @@ struct C05 : Check {
 	}
 	// With one byte per write() a file of n bytes honestly costs n system calls: the per-step syscall
 	// budget (bounded liveness) then only makes sense for moderately sized buffers.
-	// Counts in the thousands multiply (a put of a put ...): at most two per plan, so that the honest cost
+	// Counts in the thousands multiply (a put of a put ...): at most one per plan (and buffers beyond 150 000 lines end the run unjudged), so that the honest cost
 	// of a plan stays far below the CPU watchdog even under ASan.
-	static int &big_left() { static int n = 2; return n; }
+	static int &big_left() { static int n = 1; return n; }
 	static std::string count(Rng &r)
 	{
 		int k = (int) r.below(10);
 		if (k < 6) return "";
 		if (k < 8) return std::to_string(r.range(1, 9));
-		if (k == 8 || big_left() <= 0) return std::to_string(r.range(10, 300));
-		big_left()--;
-		return std::to_string(r.range(1000, 20000));
+		return std::to_string(r.range(10, 300));
 	}
+	// thousands: only where the cost is linear in the count (a put of whole lines), once per plan
+	static std::string bigcount(Rng &r)
+	{
+		if (big_left() <= 0 || !r.chance(1, 3)) return count(r);
+		big_left()--;
+		return std::to_string(r.range(1000, 6000));
+	}
+	// . and @ replay typed text: typing n characters into one line costs O(n^2) (the line is rendered
+	// again for every key), so their counts stay small
+	static std::string smallcount(Rng &r) { return r.chance(1, 2) ? "" : std::to_string(r.range(1, 12)); }
 	static std::string motion(Rng &r)
 	{
 		static const char *m[] = {"h", "l", "j", "k", "0", "^", "$", "|", "w", "b", "e", "W", "B", "E", "G", "+", "-", "_", "%", "{", "}", "H", "M", "L", ";", ",", "n", "N", " ", "\x08", "\x7f", "\n", "[[", "]]", "\x01", "''", "`a", "'a", "'z", "`[", "`]"};
@@ -114,7 +123,7 @@ struct C05 : Check {
 	}
 	static std::string addr(Rng &r)
 	{
-		static const char *a[] = {"", "", "", "1", "2", "$", ".", "0", "%", "1,$", ".,$", "2,1", "99", "1,99", "'a", "'z", "/a/", "?b?", "/nomatch/", "+", "-", "+3", "-2", ".+1,$-1", "1;+1", "$;-1", ",", ";", "1,", ",5", "''", "/a/,/b/", "0,0", "-1", "5;4;3", "1,2,3", "$$", "..", "'", "/", "?", "/[/", "99999999999"};
+		static const char *a[] = {"", "", "", "1", "2", "$", ".", "0", "%", "1,$", ".,$", "2,1", "99", "1,99", "'a", "'z", "/a/", "?b?", "/nomatch/", "+", "-", "+3", "-2", ".+1,$-1", "1;+1", "$;-1", ",", ";", "1,", ",5", "''", "/a/,/b/", "0,0", "-1", "5;4;3", "1,2,3", "$$", "..", "'", "/", "?", "/[/", "$+99999999999-0", ".-99999999999+1"};	// (a bare huge number could be read as a vi count by a pending command: 10^8 puts are the user's loop, not a hang)
 		return a[r.below(sizeof a / sizeof a[0])];
 	}
 	static std::string exarg(Rng &r, const std::string &cmd)
@@ -174,7 +183,7 @@ struct C05 : Check {
 		std::string m = motion(r);
 		bool srch = m[0] == '/' || m[0] == '?' || m[0] == 'n' || m[0] == 'N' || m[0] == '\x01';
 		if (!srch) return pre + m;
-		return rg + (r.chance(1, 3) ? std::to_string(r.range(1, 300)) : "") + m;
+		return rg + (r.chance(1, 3) ? std::to_string(r.range(1, 30)) : "") + m;
 	}
 	static std::string vicmd(Rng &r)
 	{
@@ -185,14 +194,14 @@ struct C05 : Check {
 		case 2: return (r.chance(1, 4) ? std::to_string(r.chance(1, 2) ? 2147483647l : r.range(100000, 99999999)) : pre) + motion(r);	// huge counts on motions only
 		case 3: case 4: case 5: { static const char *op[] = {"d", "c", "y", "<", ">", "!", "g~", "gu", "gU"}; std::string o = op[r.below(9)]; std::string m = r.chance(1, 6) ? o.substr(o.size() - 1) : count(r) + motion(r);
 			std::string s = pre + o + m; if (o == "c") s += insert_text(r) + "\x1b"; if (o == "!") s += filter(r) + "\n"; return s; }
-		case 6: { static const char *s1[] = {"x", "X", "D", "Y", "p", "P", "J", "~", ".", "u", "\x12", "\x07", "\x0c", "ga", "gd", "gf", "gl", "\x1d", "\x14", "\x1e", "\x1a", "ZZ", "zj", "zk", "zJ", "zK", "zD", "ze", "zf", "z>", "z<", "z.", "z-", "z\n"}; return pre + s1[r.below(34)]; }
+		case 6: { static const char *s1[] = {"x", "X", "D", "Y", "p", "P", "J", "~", ".", "u", "\x12", "\x07", "\x0c", "ga", "gd", "gf", "gl", "\x1d", "\x14", "\x1e", "\x1a", "ZZ", "zj", "zk", "zJ", "zK", "zD", "ze", "zf", "z>", "z<", "z.", "z-", "z\n"}; std::string k1 = s1[r.below(34)]; return (k1 == "." ? rg + smallcount(r) : pre) + k1; }
 		case 7: return pre + "r" + (r.chance(1, 4) ? "\n" : rtext(r, 1).substr(0, 4));
 		case 8: case 9: case 10: { static const char *ins[] = {"i", "a", "I", "A", "o", "O", "s", "S", "C"}; return pre + ins[r.below(9)] + insert_text(r) + "\x1b"; }
 		case 11: return pre + "m" + std::string(1, (char) ('a' + r.below(26)));
 		case 12: { static const char *sc[] = {"\x05", "\x19", "\x04", "\x15", "\x06", "\x02"}; return pre + sc[r.below(6)]; }
 		case 13: { static const char *w[] = {"s", "j", "k", "o", "c", "x", "]", "gf", "gl", "gd", "q", "\x1d", "z"}; return "\x17" + std::string(w[r.below(13)]); }
 		case 14: case 15: case 16: case 17: return ":" + exline(r);
-		case 18: return pre + "@" + (r.chance(1, 3) ? "@" : std::string(1, (char) ('a' + r.below(4))));
+		case 18: return rg + smallcount(r) + "@" + (r.chance(1, 3) ? "@" : std::string(1, (char) ('a' + r.below(4))));
 		case 19: return "q" + std::string(1, "0123\n\x1b" "aq"[r.below(8)]);
 		case 20: return rg + (r.chance(1, 2) ? "n" : "N");
 		case 21: return rg + "\x01";
@@ -202,7 +211,7 @@ struct C05 : Check {
 		case 25: return ":s/";			// unterminated
 		case 26: return gen_line(r, r.range(1, 8), A_UTF8_MIX);	// noise
 		case 27: return std::string(1, (char) (1 + r.below(31)));
-		case 28: return pre + "yy" + count(r) + "p";
+		case 28: return c + "yy" + bigcount(r) + "p";	// (no register prefix: the put must be of the lines just yanked)
 		case 29: return pre + "dd";
 		case 30: return "u";
 		case 31: return ":" + std::string(r.chance(1, 2) ? "\x1b" : "\x03");
@@ -268,7 +277,7 @@ struct C05 : Check {
 		p.knobs.stall_pct = r.chance(1, 3) ? (int) r.range(5, 60) : 0;
 		p.knobs.read_policy = r.chance(1, 4) ? (int) r.range(1, 2) : 0;
 		p.knobs.write_policy = r.chance(1, 4) ? (int) r.range(1, 2) : 0;
-		big_left() = p.knobs.write_policy != 1 ? 2 : 0;
+		big_left() = p.knobs.write_policy != 1 ? 1 : 0;
 		bool faults = r.chance(1, 2);
 		int nsteps = (int) r.range(3, tier ? 60 : 40);
 		for (int i = 0; i < nsteps; i++) {
@@ -297,6 +306,20 @@ struct C05 : Check {
 			}
 			p.steps.push_back(s);
 		}
+		// a full buffer table (16 slots): open that many distinct paths, then delete / switch / reopen buffers
+		if (r.chance(1, 10)) {
+			std::string pre = mode == 0 ? ":" : "";
+			Step o; int nb = (int) r.range(14, 18);
+			for (int i = 0; i < nb; i++) o.keys += pre + "e! B" + std::to_string(i) + "\n";
+			Step d; int nd = (int) r.range(1, 6);
+			for (int i = 0; i < nd; i++) {
+				int k = (int) r.below(5);
+				d.keys += pre + (k == 0 ? "b !" : k == 1 ? "b !" : k == 2 ? "e! B" + std::to_string(r.below(20)) : k == 3 ? "b " + std::to_string(r.below(18)) : std::string("b +")) + "\n";
+			}
+			size_t at = (size_t) r.below(p.steps.size() + 1);
+			p.steps.insert(p.steps.begin() + (long) at, d);
+			p.steps.insert(p.steps.begin() + (long) at, o);
+		}
 		return p;
 	}
 
@@ -311,6 +334,11 @@ struct C05 : Check {
 		// cheap structural invariants (the rest of C05's oracle is the sanitizer and the budgets)
 		if (after >= 0 && c.ed.ex_lbuf()) {
 			int n = c.nlines();
+			// counts multiply (a put of a put): once the buffer is this large, every further whole-buffer
+			// command honestly costs more than the CPU watchdog allows under ASan; such a run ends here, unjudged
+			if (n > 150000) { c.count("oversized_buffer_runs_ended"); K.end_run(OUT_PLAN_END, "buffer beyond 150000 lines"); }
+			// likewise a line of tens of thousands of characters: every key typed into it renders it again
+			if (c.row() >= 0 && c.row() < n && c.line(c.row()).size() > 30000) { c.count("oversized_line_runs_ended"); K.end_run(OUT_PLAN_END, "cursor line beyond 30000 bytes"); }
 			Fnv h; h.num((unsigned long long) n); h.num((unsigned long long) c.row()); h.num((unsigned long long) K.rows * 1000 + (unsigned long long) K.cols);
 			c.state(h.h);
 		}
